@@ -50,6 +50,7 @@ type schedCfg struct {
 	unloadRate  int // 1/n of clients are explicit unloads
 	cancelRate  int
 	optVariants bool
+	mmapAll     bool
 	burst       bool
 	slowClose   bool
 }
@@ -149,6 +150,7 @@ func drawSchedCfg(tier string) schedCfg {
 	c.unloadRate = []int{0, 6, 3}[d("unload", 3)]
 	c.cancelRate = []int{0, 5, 3}[d("cancel", 3)]
 	c.optVariants = d("optvar", 2) == 0
+	c.mmapAll = d("mmap-all", 3) == 0
 	c.burst = d("burst", 3) == 0
 	c.slowClose = d("slowclose", 2) == 0
 	if d("faultfree", 5) == 0 {
@@ -664,7 +666,16 @@ func (w *schedWorld) randomWorkload(sim *verifsim.Sim) {
 			case 3:
 				r.opts.NumCtx = 1024
 				r.opts.NumGPU = 1
+			case 4:
+				// pointer-valued option: every request decodes its own pointer
+				v := true
+				r.opts.UseMMap = &v
 			}
+		}
+		if cfg.mmapAll {
+			// identical value in every request, but a pointer of its own each time
+			v := true
+			r.opts.UseMMap = &v
 		}
 		if cfg.arm == armReuse {
 			forever := api.Duration{Duration: time.Duration(math.MaxInt64)}
@@ -734,7 +745,9 @@ func (w *schedWorld) evictIdleScenario(sim *verifsim.Sim) {
 		return r
 	}
 	kas := []time.Duration{30 * time.Minute, 2 * time.Hour, time.Duration(math.MaxInt64), 45 * time.Minute}
-	busy := mk(0, perm[0], kas[d("ka-busy", 4)])
+	// the busy request may itself ask to unload when done (keep_alive=0): still busy, never the victim
+	busyKas := append([]time.Duration{0, 0}, kas...)
+	busy := mk(0, perm[0], busyKas[d("ka-busy", len(busyKas))])
 	idle := mk(1, perm[1], kas[d("ka-idle", 4)])
 	third := mk(2, perm[2], kas[d("ka-third", 4)])
 	busy.holdUntil = func() bool { return third.replies > 0 }
